@@ -40,3 +40,25 @@ PROPS["C06"] = {
                     "states with more than 3 free runs are outside the bound"],
     "outside": "more than 3 free runs in the pre-state; std's B-tree itself; device_size == 0 (bounds checks disabled)",
 }
+
+FMT = "src/storage/format.rs"
+SEQ = "src/storage/seq_token.rs"
+META = "src/storage/metadata.rs"
+JRN = "src/storage/allocation_journal.rs"
+IO = "src/storage/io.rs"
+REC = "src/core/store/recovery.rs"
+WB = "src/storage/write_buffer.rs"
+RECORD = "src/core/record.rs"
+
+PROPS["T"] = {  # scratch group for development
+    "technique": "dev", "level_text": "dev", "level_note": "dev",
+    "kani": [
+        H(SEQ, "c10_crc32c_sw_matches_bitwise", ""), H(SEQ, "c10_crc32c_streaming", ""), H(SEQ, "c10_crc32c_known_answer", ""),
+        H(SEQ, "c10_record_token_matches_reference", ""), H(SEQ, "c10_seq_token_matches_reference", ""), H(SEQ, "c10_stamp_seq_token", ""),
+        H(SEQ, "c17_header_range_total", ""), H(SEQ, "c17_header_range_block", ""),
+        H(FMT, "c10_serialize_header_v2", ""), H(FMT, "c10_serialize_header_v1", ""), H(FMT, "c17_parse_record_v2_total", ""),
+        H(FMT, "c17_parse_record_v1_total", ""), H(FMT, "c10_roundtrip_v2", ""), H(FMT, "c05_extent_length_agreement", ""),
+        H(FMT, "c05_record_disk_size_agrees_v2", ""), H(FMT, "c08_sector_holds_record_sound", ""), H(FMT, "c10_retirement_marker_layout", ""),
+        H(FMT, "c10_retirement_markers_two_blocks", ""), H(FMT, "c10_marker_token_binds_sector_and_state", ""), H(FMT, "c10_format_selection", ""),
+    ],
+}
